@@ -170,6 +170,18 @@ def ordered_lists(N):
 # ---------------------------------------------------------------------------------------
 # subset
 # ---------------------------------------------------------------------------------------
+TABLE_ATTRS = ("individuals", "nodes", "edges", "migrations", "sites", "mutations", "populations", "provenances")
+
+
+def held_views(tc):
+    """The table objects a caller may have taken from the collection before an in-place operation."""
+    return {name: getattr(tc, name) for name in TABLE_ATTRS}
+
+
+def stale_views(tc, held):
+    return [name for name, t in held.items() if not t.equals(getattr(tc, name))]
+
+
 def do_subset(ctx, nodes, ro, ru, via, acc, record=False):
     nodes = list(nodes)
     case = dict(ctx.base, op="subset", nodes=nodes, ro=ro, ru=ru, via=via, record=record)
@@ -185,8 +197,13 @@ def do_subset(ctx, nodes, ro, ru, via, acc, record=False):
                                 remove_unreferenced=ru).dump_tables()
         else:
             out = ctx.tc.copy()
+            held = held_views(out)
             out.subset(arg, record_provenance=record, reorder_populations=ro,
                        remove_unreferenced=ru)
+            stale = stale_views(out, held)
+            if stale:
+                acc.fail("subset:held_table_not_updated", f"subset({nodes}) is documented as in place, but the table "
+                         f"objects obtained before the call ({stale}) do not show the result", case)
     except Exception as e:  # noqa
         acc.fail("subset:raises", f"subset({nodes} as {form}, ro={ro}, ru={ru}) via {via} raised {e!r}", case)
         return
@@ -398,8 +415,13 @@ def do_union(ctx, cover, xo, yo, ro, add_pop, check, via, acc, record=False):
                             record_provenance=record).dump_tables()
         else:
             out = tA.copy()
+            held = held_views(out)
             out.union(tB, marg, check_shared_equality=check, add_populations=add_pop,
                       record_provenance=record)
+            stale = stale_views(out, held)
+            if stale:
+                acc.fail("union:held_table_not_updated", f"{what}: union works in place, but the table objects "
+                         f"obtained before the call ({stale}) do not show the result", case)
     except Exception as e:  # noqa
         key = classify(e, "union")
         if key == "union:raises_mutation_parent_after_child":
